@@ -11,7 +11,7 @@ def hash_fns(ctx):
             if b.kind == "Closure":
                 continue
             for c in ctx.calls(b):
-                if c.name == "core::hash::BuildHasher::build_hasher":
+                if c.name in ("core::hash::BuildHasher::build_hasher", "core::hash::BuildHasher::hash_one"):
                     p = c.arg_path(0)
                     if p is not None and p.root == 1 and not p.fields():
                         out.add(b.path)
@@ -50,13 +50,28 @@ def hasher_makers(ctx):
                     caps = [b.op_path(o) for o in rv["ops"]]
                     for c in ctx.calls(cb):
                         lc = c.local_callee()
-                        if lc is not None and lc.path in hf:
+                        if (lc is not None and lc.path in hf) or c.name in ("core::hash::BuildHasher::build_hasher", "core::hash::BuildHasher::hash_one"):
                             p = c.arg_path(0)
                             _, p2 = ctx.resolve(cb, p)
                             if p2 is not None and p2.root == 1 and not p2.fields():
                                 out.add(b.path)
         return out
     return ctx.memo("hasher_makers", build)
+
+
+def hash_forms(ctx):
+    """{function or closure path: set of forms} — how each hashing function / re-hash closure of the crate turns a builder and a key into a
+    hash: 'build_hasher+hash+finish' or 'hash_one' (which a BuildHasher may override, so the two need not agree)"""
+    def build():
+        direct = {}
+        for b in ctx.facts.bodies.values():
+            for c in ctx.calls(b):
+                if c.name == "core::hash::BuildHasher::build_hasher":
+                    direct.setdefault(b.path, set()).add("build_hasher + hash + finish")
+                elif c.name == "core::hash::BuildHasher::hash_one":
+                    direct.setdefault(b.path, set()).add("hash_one")
+        return direct
+    return ctx.memo("hash_forms", build)
 
 
 def holder_prefix(ctx, path):
@@ -116,6 +131,15 @@ def rule_h_agree(ctx):
     if not hf or not hm:
         R.anchor("hash-fns", "no hashing helper / hasher maker found")
         return R
+    # one algorithm: `BuildHasher::hash_one` may be overridden, so a table whose elements are placed by one form and re-hashed or looked up by
+    # the other loses them for such a builder
+    forms = hash_forms(ctx)
+    used = sorted({f for fs in forms.values() for f in fs})
+    R.inst(fn="(crate)", hashing_forms=used, verdict="ok" if len(used) <= 1 else "VIOLATION")
+    if len(used) > 1:
+        by = {f: sorted(p for p, fs in forms.items() if f in fs)[:4] for f in used}
+        R.viol("hash-forms:mixed", "-", "hashes are computed in two ways — %s — which a BuildHasher that overrides hash_one need not make agree: an element placed "
+               "with one and re-hashed or looked up with the other is lost" % "; ".join("%s in %s" % (f, ", ".join(ps)) for f, ps in by.items()))
     handle_pairs = {}   # adt -> set of (table_field, builder_field or hash_field, kind)
     n = 0
     for b in ctx.facts.bodies.values():
